@@ -124,6 +124,82 @@ def stress_one(binary, seed):
         shutil.rmtree(root, ignore_errors=True)
 
 
+def big_text(k, pad):
+    """version k of the document followed by `pad` further methods: a file whose parse takes long enough to overlap"""
+    return text(k) + "".join("proc Pad%d\n  x = %d + (a.b[%d] * 3)\n  if x > 1\n    y = x\n  endif\nendproc\n" % (j, j, j) for j in range(pad))
+
+
+def stress_save(binary, seed):
+    """requests on a document that is NOT open, overlapping a rewrite of its file + didSave (which re-indexes the
+    workspace): each response must be the lone answer for the old or for the new file, and once everything has
+    settled a further request must be answered exactly as a fresh server on the files as they are now"""
+    rng = random.Random(seed)
+    root = tempfile.mkdtemp(prefix="goldverif-c03s-")
+    try:
+        pad = rng.choice([0, 50, 400, 1500])
+        nfill = rng.choice([0, 20, 300])
+        open(os.path.join(root, "aBase.god"), "w").write("class aBase\nB0 : int4\n")
+        for j in range(nfill):
+            open(os.path.join(root, "aFill%d.god" % j), "w").write("class aFill%d (aBase)\nQ%d : int4\n" % (j, j))
+        path = os.path.join(root, "aDoc.god")
+        open(path, "w").write(big_text(0, pad))
+        uri = lsp.file_uri(path)
+        kinds = ["textDocument/completion", "textDocument/definition", "textDocument/diagnostic"]
+        n = rng.randint(1, 5)
+        reqs = [(rng.choice(kinds), rng.choice([0, 2])) for _ in range(n)]
+        save_other = rng.random() < 0.3          # the save is about another file: only the re-indexing overlaps
+        s = lsp.Session(binary, root)
+        s.initialize(root)
+        if rng.random() < 0.7:
+            time.sleep(rng.choice([0.05, 0.3]))
+        for i, (kind, pv) in enumerate(reqs):
+            s.request(100 + i, kind, req_params(kind, uri, pv))
+        time.sleep(rng.choice([0.0, 0.001, 0.003, 0.01, 0.03]))
+        if save_other:
+            s.notify("textDocument/didSave", {"textDocument": {"uri": lsp.file_uri(os.path.join(root, "aBase.god"))}})
+            final = 0
+        else:
+            open(path, "w").write(big_text(2, pad))
+            s.notify("textDocument/didSave", {"textDocument": {"uri": uri}})
+            final = 2
+        got = [canon(s.wait_response(100 + i, 60)) for i in range(n)]
+        # settled: one more round, sequentially
+        late = []
+        for i, kind in enumerate(kinds):
+            s.request(200 + i, kind, req_params(kind, uri, final))
+            late.append(canon(s.wait_response(200 + i, 60)))
+        _, rc = s.shutdown_exit(999, 30)
+        if s.panicked() or rc != 0:
+            return dict(seed=seed, mode="save", bad="server panicked or did not exit cleanly (rc=%r)" % (rc,), reqs=reqs)
+
+        def fresh(ver, rs):
+            open(path, "w").write(big_text(ver, pad))
+            f = lsp.Session(binary, root)
+            f.initialize(root)
+            time.sleep(0.2)
+            out = []
+            for i, (kind, pv) in enumerate(rs):
+                f.request(300 + i, kind, req_params(kind, uri, pv))
+                out.append(canon(f.wait_response(300 + i, 60)))
+            f.shutdown_exit(998, 30)
+            return out
+        after = fresh(final, reqs + [(k, final) for k in kinds])
+        before = fresh(0, reqs) if final != 0 else after[:n]
+        for i in range(n):
+            if got[i] not in (before[i], after[i]):
+                return dict(seed=seed, mode="save", reqs=reqs, pad=pad, fillers=nfill, save_other=save_other,
+                            bad="response #%d (%s) overlapping the save equals neither the lone answer for the old file nor for the new one" % (i, reqs[i][0]),
+                            got=got[i][:400], before=before[i][:400], after=after[i][:400])
+        for i, kind in enumerate(kinds):
+            if late[i] != after[n + i]:
+                return dict(seed=seed, mode="save", reqs=reqs, pad=pad, fillers=nfill, save_other=save_other,
+                            bad="after the save had been processed and all overlapping requests answered, %s is not answered as a fresh server on the current files answers it (something stale was kept)" % kind,
+                            got=late[i][:400], after=after[n + i][:400])
+        return dict(seed=seed, mode="save", reqs=reqs, change_at=-1, n=n, pad=pad, fillers=nfill)
+    finally:
+        shutil.rmtree(root, ignore_errors=True)
+
+
 def correspondence(ctx, broken_obligations=()):
     cov = {}
     # (A) forced schedules on the hooks build
@@ -195,9 +271,11 @@ def correspondence(ctx, broken_obligations=()):
     t0 = time.time()
     with ThreadPoolExecutor(max_workers=max(2, core.NCPU // 2)) as ex:
         results = list(ex.map(lambda sd: stress_one(binary, ctx.seed * 100000 + sd), range(n)))
+        nsave = 60 if ctx.quick else 800
+        results += list(ex.map(lambda sd: stress_save(binary, ctx.seed * 100000 + 50000 + sd), range(nsave)))
     for r in results:
         if r.get("bad"):
-            path = core.write_replay(ctx.pid, ctx.seed, {"engine": "E-bb stress", "case": r["seed"], "expected": r["bad"], "observed": r})
+            path = core.write_replay(ctx.pid, ctx.seed, {"engine": "E-bb stress", "mode": r.get("mode", "change"), "case": r["seed"], "expected": r["bad"], "observed": r})
             v = core.Violation(r["bad"], path, True)
             v.coverage = cov
             raise v
@@ -219,7 +297,7 @@ def replay(ctx, rep):
         bad = ("/false" in o) or any(f in o for f in ("r2=0/", "r2=?", "r1=?", "PANIC", "hook=false")) and not rep["case"].startswith("parse_pair")
         print("VIOLATION property=C03 replay=%s" % rep.get("how_to_rerun", "?").split()[-1] if bad else "property holds on this schedule")
         return 1 if bad else 0
-    r = stress_one(lsp.build_server(), rep["case"])
+    r = (stress_save if rep.get("mode") == "save" else stress_one)(lsp.build_server(), rep["case"])
     print(r)
     if r.get("bad"):
         print("VIOLATION property=C03 replay=%s" % rep.get("how_to_rerun", "?").split()[-1])
